@@ -109,7 +109,7 @@ RULES = {
     "C14": "seeded valid histories on every object kind and back end with invalid calls (NULL object/key, bad key/tweak/counter length, bad Mantis rounds, partial block count, NULL data, calls on zeroed/cleaned objects) injected anywhere; each must return 0 and leave handle, context and output untouched; the whole history is re-executed without them and must give identical results",
     "C15": "1-5 objects of mixed kinds/back ends, histories of init/key/tweak/counter/process/cleanup/cleanup-again/cleanup(NULL)/zeroed handle/use-after-cleanup/re-init up to 60 ops; SimHeap ledger: each block freed exactly once with the pointer the allocator returned, nothing touched after free (cells are made inaccessible), empty heap after final cleanup",
     "C16": "init function x back end x failing allocation index x class of prior handle content (junk, zeros, 0xFF, pointers to a live caller block, pointers into a guard page, bytes of a cleaned-up handle), enumerated by run index; then a seeded tail of cleanup / other calls / re-init",
-    "C17": "C15's histories weighted towards cleanup in rich states; at every free() from library code SimHeap scans the whole block for non-zero bytes; non-trivial = freed block that had held non-zero data",
+    "C17": "C15's histories weighted towards cleanup in rich states; at every free() from library code SimHeap scans the whole block for non-zero bytes, and after every cleanup of a live object no block it owned may survive with content; non-trivial = freed block that had held non-zero data",
 }
 
 
